@@ -503,7 +503,21 @@ static int cmd_replay(const std::string & file, const Opts & o) {
 	return 0;
 }
 
+#if defined(VARIANT_T)
+void thr_init_interposers();
+#endif
+#include <sys/personality.h>
+
 int main(int argc, char ** argv) {
+	// one address-space layout for every run and every replay: pointer values never enter a decision,
+	// but hash-table collisions in the access shadow may, so take ASLR out of the picture altogether
+	if (!getenv("MMDSIM_NOASLR")) {
+		setenv("MMDSIM_NOASLR", "1", 1);
+		if (personality(ADDR_NO_RANDOMIZE) != -1) execv("/proc/self/exe", argv);
+	}
+#if defined(VARIANT_T)
+	thr_init_interposers();
+#endif
 	setenv("TZ", "UTC", 1);
 	setenv("LC_ALL", "C", 1);
 	tzset();
